@@ -367,7 +367,7 @@ class Interp:
 
     def deref(self, t):
         t = z3.simplify(t)
-        if z3.is_app(t) and t.decl().name() == "obj" and z3.is_int_value(t.arg(0)):
+        if z3.is_app(t) and t.num_args() == 1 and t.decl().name() == "obj" and z3.is_int_value(t.arg(0)):
             return self.heap.get(t.arg(0).as_long())
         return None
 
@@ -535,6 +535,8 @@ class Interp:
             return ModuleVal(pyobj)
         if isinstance(pyobj, type):
             return ClassVal(pyobj)
+        if isinstance(getattr(pyobj, "__origin__", None), type):  # typing.Mapping, typing.Sequence, ...
+            return ClassVal(pyobj.__origin__)
         if isinstance(pyobj, types.FunctionType):
             if pyobj.__module__.startswith(("jsonpath", "specs", "contracts")):
                 return lookup_function(pyobj)
